@@ -1,7 +1,7 @@
 (* C16 — Session state exported at any point and restored resumes the session.  Statements only;
-   proofs in Conn/Restore.v.  Nothing else may be added to this file. *)
+   proofs in Conn/Restore.v and Conn/OwnStep.v.  Nothing else may be added to this file. *)
 From MQ Require Import Base.Prelude Alloc.Alloc Alloc.AllocProofs Framing.Framing Conn.Types Conn.ConnRecord Conn.Step
-                       Corr.ConnTrace Conn.IdsQuota Conn.Scope Conn.Restore.
+                       Corr.ConnTrace Conn.IdsQuota Conn.Scope Conn.Restore Conn.Own Conn.OwnFrame Conn.OwnStep.
 
 (* restore_packets on ANY object whose allocator is well formed, for EVERY export with distinct
    identifiers that are free: the store is extended by exactly the export in its order, each entry's
@@ -57,11 +57,18 @@ Theorem C16_restore_skips_used : forall g c p,
 Proof. exact restore_skips_used. Qed.
 Print Assumptions C16_restore_skips_used.
 
-(* C16_partial: sess_inv (the store determines the in-flight sets and the identifiers in use) is
-   C06's structural invariant; that every reachable state of a persistent session whose application
-   holds no identifiers satisfies it is checked on the implementation's digests by the monitors
-   mon_c06/mon_c08 and by the paired-run monitor mon_pair (original implementation object vs
-   restored implementation object, events and full digest after the reconnect), not yet a theorem. *)
+(* restore_packets keeps the ownership invariant [OWN] (Conn/Own.v) on ANY object that has it — not only a
+   fresh one — for every list whose recorded packets have the connection's version, a QoS the store
+   knows and an identifier awaited nowhere ([restore_ok]); and every later call keeps it
+   (C08_step_keeps_ownership): the restored identifiers stay in use until their exchange completes. *)
+Theorem C16_restore_keeps_ownership : forall g l c,
+  OWN g c -> restore_ok c l -> OWN g (do_restore c l) /\ c_version (do_restore c l) = c_version c.
+Proof. exact do_restore_own. Qed.
+Print Assumptions C16_restore_keeps_ownership.
+
+(* C16_partial: that the restored object's later behaviour EQUALS the original's is the paired-run
+   monitor mon_pair (original implementation object vs restored implementation object, events and full
+   digest after the reconnect) together with the restore theorems above, not a single theorem. *)
 
 Example C16_nonvacuous :
   let g := mkCfg RClient 65535 2 in
